@@ -630,6 +630,47 @@ def gen_ent():
     write("Ent.lean", text)
 
 
+def gen_snap():
+    """the joining snapshot (src/server/{receiver,initial_sync}.rs, src/full_sync/mod.rs, src/client/receiver.rs)"""
+    def squash_src(src):
+        return re.sub(r"\s+", "", src)
+    srecv = squash_src(strip_comments(open(os.path.join(REPO, "src/server/receiver.rs")).read()))
+    crecv = squash_src(strip_comments(open(os.path.join(REPO, "src/client/receiver.rs")).read()))
+    init_src = strip_comments(open(os.path.join(REPO, "src/server/initial_sync.rs")).read())
+    full_src = strip_comments(open(os.path.join(REPO, "src/full_sync/mod.rs")).read())
+    queued = "Message::RequestInitialSync=>{" in srecv and "cmd.add(move|world:&mutWorld|send_initial_sync(client_id,world));" in srecv
+    sb = squash_src(fn_body(init_src, "send_initial_sync"))
+    i1 = sb.find("build_full_sync(world)")
+    i2 = sb.find("formsgininitial_sync.drain(..)")
+    i3 = sb.find("server.send_message(client_id,DefaultChannel::ReliableOrdered,msg_bin);")
+    i4 = sb.find("bincode::serialize(&Message::FinishedInitialSync)")
+    ordered = 0 <= i1 < i2 < i3 < i4 and sb.count("DefaultChannel::ReliableOrdered") == 2
+    bb = squash_src(fn_body(full_src, "build_full_sync"))
+    calls = ["check_entity_components(world,&mutresult)?;", "check_parents(world,&mutresult)?;", "check_images(world,&mutresult)?;",
+             "check_materials(world,&mutresult)?;", "check_meshes(world,&mutresult)?;", "check_audios(world,&mutresult)?;"]
+    pos = [bb.find(c) for c in calls]
+    build_order = all(p >= 0 for p in pos) and pos == sorted(pos)
+    cb = squash_src(fn_body(full_src, "check_entity_components"))
+    j1 = cb.find("ifletSome(sid)=track.entity_to_uuid.get(&e_id){if!entity_ids_sent.contains(&e_id){result.push(Message::EntitySpawn{id:*sid});")
+    j2 = cb.find("ifletSome(sid)=track.entity_to_uuid.get(&e_id){result.push(Message::ComponentUpdated{")
+    spawn_first = (0 <= j1 < j2 and ".filter(|&c_id|track.registered_componets_for_sync.contains(&c_id))" in cb
+                   and "ifarch.contains(*c_exclude_id){continue;}" in cb and ".filter(|arch|arch.contains(sync_down_id))" in cb)
+    pb = squash_src(fn_body(full_src, "check_parents"))
+    parents = "ifletSome(sid)=track.entity_to_uuid.get(&e_id){ifletSome(pid)=track.entity_to_uuid.get(&parent.get()){result.push(Message::EntityParented{entity_id:*sid,parent_id:*pid,});}}" in pb
+    ignores = "Message::ComponentUpdated{id,name,data}=>{letSome(&e_id)=track.uuid_to_entity.get(&id)else{return;};cmd.add(move|world:&mutWorld|{SyncTrackerRes::apply_component_change_from_network(world,e_id,name,&data);});}" in crecv
+    classes = True
+    for fn, sw in (("check_materials", "track.sync_materials"), ("check_images", "track.sync_materials"), ("check_meshes", "track.sync_meshes"), ("check_audios", "track.sync_audios")):
+        b = squash_src(fn_body(full_src, fn))
+        classes = classes and ("if" + sw + "{") in b and "AssetId::Uuid{uuid:id}=idelse{continue;}" in b.replace("let", "")
+    text = "/-! GENERATED by /verif/translate/translate.py from src/server/{receiver,initial_sync}.rs, src/full_sync/mod.rs, src/client/receiver.rs — do not edit. -/\nnamespace BevySync\nnamespace Generated\n\n"
+    for name, val in (("snapRequestQueuesClosure", queued), ("snapSentInOrderThenFinished", ordered), ("snapBuildOrder", build_order),
+                      ("snapSpawnBeforeComponents", spawn_first), ("snapParentsOfKnownPairs", parents), ("snapClientIgnoresUnknownEntity", ignores),
+                      ("snapAssetClassesGated", classes)):
+        text += "def %s : Bool := %s\n" % (name, str(bool(val)).lower())
+    text += FOOTER
+    write("Snap.lean", text)
+
+
 def gen_asset():
     """facts of the uuid-asset path the Asset slice relies on (src/lib_priv.rs, networking/assets/mod.rs,
     {server,client}/{track,receiver}.rs)"""
@@ -709,6 +750,7 @@ def gen_asset():
 
 def main():
     try:
+        gen_snap()
         gen_ent()
         gen_asset()
         gen_conn()
